@@ -22,6 +22,20 @@ let pos_of_z = function Zpos p -> p | _ -> failwith "positive expected"
 let z_is_zero = function Z0 -> true | _ -> false
 let z_is_one = function Zpos XH -> true | _ -> false
 
+let q_of_zz n d = { qnum = n; qden = pos_of_z d }
+let q_abs x = { x with qnum = Z.abs x.qnum }
+let q_sub x y = qplus x (qopp y)
+let q_is_int x = (match to_int x with Some _ -> true | None -> false)
+let rec string_of_pos_z z =
+  (* decimal printing through repeated division by 10 *)
+  let rec int_of_pos = function XH -> 1 | XO p -> 2 * int_of_pos p | XI p -> 2 * int_of_pos p + 1 in
+  let rec digits z acc = match z with
+    | Z0 -> acc
+    | _ -> let q = Z.div z ten and r = Z.modulo z ten in
+           digits q (string_of_int (match r with Zpos p -> int_of_pos p | _ -> 0) :: acc) in
+  match z with Z0 -> "0" | Zpos _ -> String.concat "" (digits z []) | Zneg p -> "-" ^ String.concat "" (digits (Zpos p) [])
+let string_of_q x = let x = qred x in string_of_pos_z x.qnum ^ "/" ^ string_of_pos_z (Zpos x.qden)
+
 (* ---- reference objects ---- *)
 type robj = { n : int; g : qgen list; cv : cg list option }
 let pool : robj array = Array.make 4 { n = 0; g = []; cv = None }
@@ -83,8 +97,10 @@ let last_div : bool array = Array.make 4 false          (* did the last dump sho
 let hist : (string, int) Hashtbl.t = Hashtbl.create 64
 let bump k = Hashtbl.replace hist k (1 + try Hashtbl.find hist k with Not_found -> 0)
 
+let extra_info : (string * string) list ref = ref []
 let fail kind kvs =
   failed := true;
+  let kvs = kvs @ !extra_info in
   Printf.printf "FAIL case=%s step=%d kind=%s %s\n" !case_id !step kind
     (String.concat " " (List.map (fun (k, v) -> k ^ "=" ^ v) kvs))
 
@@ -172,6 +188,51 @@ let apply (si : stepinfo) : string option =
       if m > x.n then Some "exn invalid_argument"
       else if m = x.n then Some "ok"
       else (set { n = m; g = remove_higher (nat m) x.g; cv = None }; Some "ok")
+  | "unconstrain" -> let var = int_of_string (List.hd rest) in
+      set { x with g = unconstrain (nat var) x.g; cv = None }; Some "ok"
+  | "telapse" ->
+      let y = pool.(int_of_string (List.hd rest)) in
+      set { x with g = time_elapse x.g y.g; cv = None }; Some "ok"
+  | "gimage" | "gpreimage" ->
+      (match rest with
+       | var :: rel :: b :: d :: m :: a ->
+           let var = int_of_string var and b = z_of_string b and d = z_of_string d and m = z_of_string m
+           and a = List.map z_of_string a in
+           if z_is_zero d then Some "exn invalid_argument"
+           else if rel <> "eq" then
+             (if not (z_is_zero m) then Some "exn invalid_argument"
+              else (set { x with g = unconstrain (nat var) x.g; cv = None }; Some "ok"))
+           else if si.op = "gimage" then (set { x with g = gen_image (nat var) a b d m x.g; cv = None }; Some "ok")
+           else (set { x with g = get "gen_preimage" (gen_preimage (nat x.n) (nat var) a b d m x.g); cv = None }; Some "ok")
+       | _ -> failwith "gimage")
+  | "relgen" ->
+      let g = qgen_of (gen_of_toks rest) in
+      Some ("bool " ^ bool_s (get "subsumes" (subsumes (nat x.n) x.g g)))
+  | "freq" ->
+      (match rest with
+       | b :: a ->
+           let b = z_of_string b and a = List.map z_of_string a in
+           (match get "frequency" (frequency (nat x.n) x.g a b) with
+            | NoFreq -> Some "freq 0"
+            | Freq (f, v) ->
+                let canonical = Printf.sprintf "freq 1 %s %s" (string_of_q f) (string_of_q v) in
+                (match toks si.res with
+                 | [ "freq"; "1"; fn; fd; vn; vd ] ->
+                     let fn = z_of_string fn and fd = z_of_string fd and vn = z_of_string vn and vd = z_of_string vd in
+                     (match fd, vd with
+                      | Zpos _, Zpos _ ->
+                          let pf = q_of_zz fn fd and pv = q_of_zz vn vd in
+                          let why =
+                            if not (qeq_bool pf f) then "frequency"
+                            else if not (if qeq_bool f (inject_Z Z0) then qeq_bool pv v else q_is_int (qdiv (q_sub pv v) f))
+                            then "value-not-attained"
+                            else if not (qeq_bool (q_abs pv) (q_abs v)) then "value-not-closest-to-zero"
+                            else "" in
+                          if why = "" then Some si.res
+                          else (extra_info := [ "why", why; "expr_b_zero", bool_s (z_is_zero b) ]; Some canonical)
+                      | _ -> extra_info := [ "why", "non-positive-denominator" ]; Some canonical)
+                 | _ -> extra_info := [ "why", "defined-but-reported-undefined" ]; Some canonical))
+       | _ -> failwith "freq")
   | "closure" -> Some "ok"
   | "obs" -> None
   | "q" ->
@@ -241,6 +302,7 @@ let judge_step (si : stepinfo) =
   bump (Printf.sprintf "flags:EM%s.CU%s.CM%s.GU%s.GM%s" (flag_of si.pre o "EM") (flag_of si.pre o "CU")
           (flag_of si.pre o "CM") (flag_of si.pre o "GU") (flag_of si.pre o "GM"));
   let before = Array.copy pool in
+  extra_info := [];
   (try
     let expected = apply si in
     (match expected with
